@@ -388,7 +388,7 @@ def struct_roundtrip(cfg):
 def sections(tier):
     S = run.Section
     secs = []
-    bud = 175 if tier == 'quick' else 3000
+    bud = 175 if tier == 'quick' else 1200
     for cfg in (('square-1', 'rumple2d-1', 'rect2-1') if tier == 'quick' else ('square-1', 'rumple2d-1', 'rect2-1', 'sc-1', 'square-2')):
         secs.append(S('cache:' + cfg, cache_roundtrip(cfg), budget_s=bud, replayer='cache', config=cfg, maxpaths=64, timeout_ms=20000))
         if tier == 'quick' and cfg != 'square-1':
